@@ -145,4 +145,18 @@ CHECKS = {
         note="fakesql implements exactly the statement shapes of mysql.go (unknown SQL is an error), LIKE with % and _, binary string comparison (MySQL's case-insensitive default collation is not modelled: the check demands less). fakeetcd is a model of etcd Get/Put/Delete/Txn; conformance against embedded etcd is a thorough-tier part.",
         parts=[part("isolation", "server", "store", "TestVerifC12Isolation", shards=(8, 16), budget=(150, 900))],
     ),
+    "C05": dict(
+        level="fault_enumeration", engine="sched",
+        technique="stateless DFS over goroutine schedules x crash points x fault answers (deviation-bounded) of the real full stack inside synctest bubbles, with restart on the same durable fakes",
+        text="The real MetaCDC with real channel manager, readers, writer, batcher and etcd stores runs over in-memory source logs, downstream and store; every crash point before/after each visible step (downstream acknowledgement, checkpoint write), every single write/store failure and a manual pause are placed at every position of every schedule within the deviation bound; a new incarnation restarts from the persisted state; the event log is checked for checkpoints that run ahead of acknowledgements, gaps, changed dropped checkpoints and rows never delivered.",
+        note="Bounds: <= 2 collections x <= 2 shards, scripts <= 6 packs, batch sizes 1..3, one crash and one fault per execution (two thorough), deviation bound 1 (2 thorough). Source seek semantics are fakemq's model of MqTtMsgStream.Seek; 'latest' = everything delivered so far.",
+        parts=[part("resume", "server", ".", "TestVerifC05Resume", shards=(16, 16), budget=(150, 1200), gomaxprocs=1)],
+    ),
+    "C06": dict(
+        level="fault_enumeration", engine="sched",
+        technique="stateless DFS over goroutine schedules x failure positions (deviation-bounded) of the real full stack inside synctest bubbles",
+        text="For every failure class (downstream rejects a write once or repeatedly, store rejects a checkpoint, two failures, downstream rejects a drop, message for a partition unknown downstream) and task layout (1 task, 2 tasks on one target, 2 tasks on two targets) the failure is placed at every visible step of every schedule within the deviation bound on the real full stack; at every quiescent point the owning task must be Paused with a reason (memory, list API, store), other tasks unchanged, nothing of the failed stream acknowledged past the failed pack, and after resume the failed message is delivered; a panic kills the worker and is attributed to the execution.",
+        note="Bounds: scripts of 3-4 packs, one failure per execution (two in the reject-two class), deviation bound 1 (2 thorough).",
+        parts=[part("failure", "server", ".", "TestVerifC06Failure", shards=(16, 16), budget=(150, 1200), gomaxprocs=1)],
+    ),
 }
